@@ -12,6 +12,7 @@ from .ExcludedGcode import EXCLUDE_EXCEPT_FIRST, EXCLUDE_EXCEPT_LAST, EXCLUDE_ME
 from .Position import Position
 from .RetractionState import RetractionState
 from .GcodeParser import GcodeParser
+from .CommonMixin import formatNumber
 
 IGNORE_GCODE_CMD = (None,)
 
@@ -830,7 +831,7 @@ class ExcludeRegionState(object):  # pylint: disable=too-many-instance-attribute
 
         returnCommands.append(
             # Set logical extruder position
-            "G92 E{e}".format(e=self.position.E_AXIS.nativeToLogical())
+            "G92 E{e}".format(e=formatNumber(self.position.E_AXIS.nativeToLogical()))
         )
 
         def axisTarget(axis, lastAxis):
@@ -844,8 +845,8 @@ class ExcludeRegionState(object):  # pylint: disable=too-many-instance-attribute
         newZ = self.position.Z_AXIS.current
         oldZ = self.lastPosition.Z_AXIS.current
         moveZcmd = "G0 F{f} Z{z}".format(
-            f=self.feedRate / self.feedRateUnitMultiplier,
-            z=axisTarget(self.position.Z_AXIS, self.lastPosition.Z_AXIS)
+            f=formatNumber(self.feedRate / self.feedRateUnitMultiplier),
+            z=formatNumber(axisTarget(self.position.Z_AXIS, self.lastPosition.Z_AXIS))
         )
 
         if (newZ > oldZ):
@@ -857,9 +858,9 @@ class ExcludeRegionState(object):  # pylint: disable=too-many-instance-attribute
             # Move X/Y axes to new position
             # Use G0 ("fast" linear move) as this is a non-extruding move
             "G0 F{f} X{x} Y{y}".format(
-                f=self.feedRate / self.feedRateUnitMultiplier,
-                x=axisTarget(self.position.X_AXIS, self.lastPosition.X_AXIS),
-                y=axisTarget(self.position.Y_AXIS, self.lastPosition.Y_AXIS)
+                f=formatNumber(self.feedRate / self.feedRateUnitMultiplier),
+                x=formatNumber(axisTarget(self.position.X_AXIS, self.lastPosition.X_AXIS)),
+                y=formatNumber(axisTarget(self.position.Y_AXIS, self.lastPosition.Y_AXIS))
             )
         )
 
